@@ -401,6 +401,9 @@ class FakeParamikoSession:
             raise make_exc(ev[1])
         return ev[0] == "T"
 
+    def close(self):        # paramiko.Transport.close(): stops its thread and closes the socket; does not raise
+        pass
+
 
 class _FakeAioTransport:
     def __init__(self, env):
@@ -971,6 +974,9 @@ def run_open_case(case):
 
             def is_alive(self):
                 return True
+
+            def close(self):        # paramiko.Transport.close(): never raises
+                pass
 
             def get_remote_server_key(self):
                 raise AssertionError("not used (non strict)")
